@@ -131,7 +131,7 @@ def run_cli(chk, model):
                  ab("r1/lnk"), ab("r1/dangling"), ab("r1/flink"), ab("r2/rlnk"), ab("r1/lnk/"),
                  # a doubled LEADING separator is still an absolute path (POSIX: "//x" names the same object as "/x" here)
                  "/" + ab("r2/w"), "/" + ab("r1/sub/deep/z"), "//" + ab("out/v")]
-        rootc = [ab("r1"), ab("r1/"), ab("r2//"), ab("r1/sub"), "rel", ab("r1/sub/"), ab("r"), ab("r2"), "/" + ab("r2"), "/" + ab("r1") + "/"]
+        rootc = [ab("r1"), ab("r1/"), ab("r2//"), ab("r1/sub"), "rel", ab("r1/sub/"), ab("r"), ab("r2"), "/" + ab("r2"), "/" + ab("r1") + "/", "/", "//"]        # "/" as a root: every ABSOLUTE path lies beneath it, a relative one does not
         runs = []
         for i in range(rng.randint(2, 5)):
             e = rng.sample(cands, rng.randint(0, 7))
